@@ -44,7 +44,7 @@ def _menus(tier):
     if tier == "quick":
         pkg_vers = ["1", "1.0", "1.1", "1.10", "1.1.1", "10", "2", "1-r1", "1-r2", "1-r10", "1_p1", "1_p10", "1_p1-r1", "1a"]
         atom_vers = ["1", "1.1", "1-r1", "1_p1", "10"]
-        slotmenu = [(None, None, None), ("0", None, None), ("0", "a", None), ("1", "a", None), (None, None, "="), ("0", None, "=")]
+        slotmenu = [(None, None, None), ("0", None, None), ("0", "0", None), ("0", "a", None), ("1", "a", None), (None, None, "="), ("0", None, "=")]
         repomenu = [None, "r1"]
         usemenu = [()] + [(t,) for t in _XT] + [
             ("x", "y"),
@@ -290,7 +290,7 @@ def family(case):
 
 
 BOUNDS = {
-    "quick": "35 operator/version heads (none; < <= = ~ >= > =* x 1, 1.1, 1-r1, 1_p1, 10) x 3 blocker forms x 6 slot forms x 2 repo forms x 21 "
+    "quick": "35 operator/version heads (none; < <= = ~ >= > =* x 1, 1.1, 1-r1, 1_p1, 10) x 3 blocker forms x 7 slot forms (incl. sub-slot equal to slot) x 2 repo forms x 21 "
     "USE-dep forms (+ 8 key-mismatch heads) = 28 476 atoms, each against 1 134 packages (a/p: 14 versions x 2 slots x 2 sub-slots x "
     "2 repos x 9 IUSE/USE states; a/q: 14 versions x 9 states) = 32.3 M matches",
     "thorough": "61 heads (9 written versions) x 3 blockers x 8 slot forms x 3 repo forms x 48 USE-dep forms (all 36 x-token x y-token "
